@@ -36,6 +36,14 @@ func init() {
 			}
 			c := ctxFor(p)
 			r := g.R.digits(g.R.between(1, p+2))
+			if g.R.bool() { // unbiased digits, root of exactly p or p-1 digits
+				nd := p - g.R.Intn(2)
+				if nd < 1 {
+					nd = 1
+				}
+				lo := new(big.Int).Exp(big.NewInt(10), big.NewInt(int64(nd-1)), nil)
+				r = new(big.Int).Add(lo, new(big.Int).Rand(g.R.Rand, new(big.Int).Mul(lo, big.NewInt(9))))
+			}
 			e := g.R.between(-30, 30)
 			var x *big.Int
 			neg := false
@@ -66,8 +74,14 @@ func init() {
 				x.Mul(x, new(big.Int).Exp(big.NewInt(10), big.NewInt(int64(2*k)), nil))
 				x.Add(x, big.NewInt(int64(g.R.between(-3, 3))))
 				e = 2*e - 2*k
-			case 5: // nines
+			case 5: // nines; k = p and k = 2p are the half-way artefacts of the working precision
 				k := g.R.between(1, 2*p+4)
+				if g.R.bool() {
+					k = []int{p, 2 * p, p + 1, 2*p - 1}[g.R.Intn(4)]
+					if k < 1 {
+						k = 1
+					}
+				}
 				x = new(big.Int).Exp(big.NewInt(10), big.NewInt(int64(k)), nil)
 				x.Sub(x, big.NewInt(1))
 				if g.R.bool() {
